@@ -4,13 +4,33 @@ import (
 	"fmt"
 	"time"
 
+	"verifsim/core"
 	"verifsim/refmodel"
 )
 
 // Generators of the data-type properties C09-C12 and C18 (lock-step oracle).
 
 func init() {
-	register(&PropDef{ID: "C09", Gen: genLockstep(lsFamily{prop: "C09", gen: genListCmd, plainKeys: true, seedOthers: true}), Judge: judgeLockstep("C09"), Nontrivial: ntLockstep})
+	c09ls := genLockstep(lsFamily{prop: "C09", gen: genListCmd, plainKeys: true, seedOthers: true})
+	register(&PropDef{ID: "C09",
+		Gen: func(r *core.Rand, env *core.Env, run int) *Scenario {
+			if run%4 == 3 {
+				return genC09Blocking(r, env, run)
+			}
+			return c09ls(r, env, run)
+		},
+		Judge: func(sc *Scenario, rr *RunResult, env *core.Env) (string, string) {
+			if sc.Kind == "C09:blocking" {
+				return judgeC09Blocking(sc, rr, env)
+			}
+			return judgeLockstep("C09")(sc, rr, env)
+		},
+		Nontrivial: func(sc *Scenario, rr *RunResult) bool {
+			if sc.Kind == "C09:blocking" {
+				return rr.Probes["blocking-pop-got-element"]+rr.Probes["blocking-pop-timed-out"] > 0
+			}
+			return ntLockstep(sc, rr)
+		}})
 	register(&PropDef{ID: "C10", Gen: genLockstep(lsFamily{prop: "C10", gen: genHashCmd, plainKeys: true, seedOthers: true, useTime: true}), Judge: judgeLockstep("C10"), Nontrivial: ntLockstep})
 	register(&PropDef{ID: "C11", Gen: genLockstep(lsFamily{prop: "C11", gen: genSetCmd, plainKeys: true, seedOthers: true, useTime: true}), Judge: judgeLockstep("C11"), Nontrivial: ntLockstep})
 	register(&PropDef{ID: "C12", Gen: genLockstep(lsFamily{prop: "C12", gen: genZSetCmd, plainKeys: true, seedOthers: true, useTime: true}), Judge: judgeLockstep("C12"), Nontrivial: ntLockstep})
